@@ -496,7 +496,7 @@ func (m *Model) Apply(c Call, o Obs) []Hit {
 		hits = m.applyReconfig(c, o)
 	case "stream":
 		hits = m.applyStream(c, o)
-	case "tick", "acknack", "updateSub", "modifyPush", "updateTopic", "updateSubDL", "streamModack":
+	case "tick", "acknack", "updateSub", "modifyPush", "updateTopic", "updateSubDL", "streamModack", "streamWait":
 		// nothing (only used by the fault-enumeration check, which does not consult the model's verdicts)
 	case "getTopic", "getSub", "getSnap", "listTopics", "listSubs", "listSnaps", "listTopicSubs", "delSnap":
 		hits = m.applyResource(c, o)
